@@ -773,4 +773,22 @@ theorem trailingZeros_maskRange (s b : Nat) (hb : 1 ≤ b) (h : s + b ≤ 32) : 
   simp only [hne, if_false]
   exact trailingZeros_go b hb s 32 (by omega)
 
+/-- `trailing_zeros` finds the lowest set bit, whatever lies above it -/
+theorem trailingZeros_go_lowest : ∀ (s fuel m : Nat), s < fuel → (∀ k, k < s → m.testBit k = false) → m.testBit s = true →
+    trailingZeros.go fuel m = s
+  | 0, fuel + 1, m, _, _, hs => by
+    rw [Nat.testBit_zero] at hs
+    simp only [decide_eq_true_eq] at hs
+    simp [trailingZeros.go, hs]
+  | s + 1, fuel + 1, m, h, hlow, hs => by
+    have h0 := hlow 0 (by omega)
+    rw [Nat.testBit_zero] at h0
+    simp only [decide_eq_false_iff_not] at h0
+    rw [trailingZeros.go]
+    simp only [h0, if_false]
+    rw [trailingZeros_go_lowest s fuel (m / 2) (by omega)
+      (fun k hk => by have := hlow (k + 1) (by omega); rwa [Nat.testBit_succ] at this)
+      (by rwa [Nat.testBit_succ] at hs)]
+    omega
+
 end RbModel.Map
